@@ -47,7 +47,32 @@ Inductive c12case :=
 | DispCase (lim : Z) (burst : Z) (evs : list devent)
   (* goroutine-level run of Run + dispatcher: the provider calls in order; they must be the calls of a run of
      the loop that receives exactly these sources *)
-| AsyncCase (lim : Z) (calls : list (list source)).
+| AsyncCase (lim : Z) (calls : list (list source))
+  (* configuration path of cmd/gostatsd (setupConfiguration + newCachedInstancesFromViper on flags / TOML): what
+     was configured for cloud-cache-refresh-period, cloud-cache-evict-after-idle-period, cloud-cache-ttl,
+     cloud-cache-negative-ttl, max-cloud-requests, burst-cloud-requests (None = not given), and the options the
+     CachedCloudProvider was built with, in the same order (durations in ns) *)
+| CfgCase (given : list (option Z)) (got : list Z).
+
+(* the documented defaults: 1 min, 10 min, 30 min, 1 min; 10 requests / s, burst 15 *)
+Definition cfg_defaults : list Z := [60000000000; 600000000000; 1800000000000; 60000000000; 10; 15].
+Fixpoint cfg_resolve (given : list (option Z)) (defaults : list Z) : list Z :=
+  match given, defaults with
+  | g :: gs, d :: ds => match g with Some v => v | None => d end :: cfg_resolve gs ds
+  | _, _ => []
+  end.
+(* the model's options for a provider built from this configuration *)
+Definition cfg_config (given : list (option Z)) (lim : Z) : option config :=
+  match cfg_resolve given cfg_defaults with
+  | [_; idle; ttl; negttl; _; _] => Some (Config ttl negttl idle lim)
+  | _ => None
+  end.
+Definition cfg_ok (given : list (option Z)) (got : list Z) : bool :=
+  (length given =? 6)%nat && list_eqb Z.eqb got (cfg_resolve given cfg_defaults)
+  && match cfg_config given 1, got with
+     | Some c, [_; idle; ttl; negttl; _; _] => (c_idle c =? idle) && (c_ttl c =? ttl) && (c_negttl c =? negttl)
+     | _, _ => false
+     end.
 
 Definition inst_eqb (a b : instance) : bool :=
   str_eqb (i_id a) (i_id b) && list_eqb str_eqb (i_tags a) (i_tags b).
@@ -189,6 +214,7 @@ Definition check_case (k : c12case) : bool :=
   | Case cfg steps => match first_bad cfg init 0%N steps with None => true | Some _ => false end
   | DispCase lim burst evs => match dtrace_bad lim burst (d_init lim) 0%N evs with None => true | Some _ => false end
   | AsyncCase lim calls => match dcalls_bad lim (d_init lim) 0%N calls with None => true | Some _ => false end
+  | CfgCase given got => cfg_ok given got
   end.
 
 (* for a failing case: the step index and the model's projection after that step (v_enabled = true), or
@@ -227,4 +253,10 @@ Definition explain_case (k : c12case) : option view * option dview :=
   | Case cfg steps => (explain_lock cfg steps, None)
   | DispCase lim burst evs => (None, mk_dview <$> dtrace_bad lim burst (d_init lim) 0%N evs)
   | AsyncCase lim calls => (None, mk_dview <$> dcalls_bad lim (d_init lim) 0%N calls)
+  | CfgCase given got =>   (* the expected options, as the phase-less view's ips are not usable: in v_gauges order *)
+      (match cfg_resolve given cfg_defaults with
+       | [r; idle; ttl; negttl; rate; burst] =>
+           Some (View 0 true [] (idle, ttl, negttl, r) [] [] [] None None)
+       | _ => None
+       end, None)
   end.
